@@ -70,7 +70,47 @@ def h_find_if(em, name, r, args, n, rvalue):
     if name == 'any_of': return '(%s != %s.size)' % (res, cont)
     return '(%s == %s.size)' % (res, cont)      # all_of / none_of
 
+def lambda_call_op(em, lam):
+    """operator() of a lambda; for a generic lambda (auto parameters) the instantiated specialisation"""
+    n = em.skip(lam)
+    if n.get('kind') != 'LambdaExpr': raise Unsupported('expected lambda, got %s' % n.get('kind'))
+    rec = n['inner'][0]
+    cands = []
+    for c in rec.get('inner', []):
+        if c.get('kind') == 'CXXMethodDecl' and c.get('name') == 'operator()': cands.append(c)
+        if c.get('kind') == 'FunctionTemplateDecl' and c.get('name') == 'operator()':
+            for cc in c.get('inner', []):
+                if cc.get('kind') == 'CXXMethodDecl' and cc.get('name') == 'operator()': cands.append(cc)
+    good = [c for c in cands if any(x.get('kind') == 'CompoundStmt' for x in c.get('inner', []))
+            and not any('auto' in (pp.get('type', {}).get('qualType') or '') or 'type-parameter' in (pp.get('type', {}).get('qualType') or '') for pp in em.params_of(c))]
+    if len(good) != 1: raise Unsupported('lambda with %d usable call operators at %s' % (len(good), em.where(n)))
+    return good[0]
+
+def h_for_each(em, name, r, args, n, rvalue):
+    """std::for_each(begin(c), end(c), [&](T& x){ body }) -> loop over c with x aliasing c.data[j] (no pointer is taken)"""
+    if name != 'for_each' or len(args) != 3: return None
+    first, last, lam = args
+    cont = em.find_container_in(first); ct = em.container_type(first)
+    if cont is None or ct is None: raise Unsupported('for_each over unknown container at ' + em.where(n))
+    em.require_full_range(first, last, n)
+    op = lambda_call_op(em, lam)
+    params = em.params_of(op)
+    if len(params) != 1: raise Unsupported('for_each lambda with %d parameters' % len(params))
+    body = [c for c in op.get('inner', []) if c.get('kind') == 'CompoundStmt'][0]
+    j = 'j_L%d_' % (em.loopn + 1)
+    saved = em.pre; em.pre = []
+    out = []
+    out.append('{ size_t %s; for (%s = 0; %s < %s.size; ++%s)' % (j, j, j, cont, j))
+    out.append(em.loop_marker())
+    em.vars[params[0]['id']] = ('alias', '%s.data[%s]' % (cont, j))
+    em.stmt(body, out, '  ')
+    out.append('}')
+    em.pre = saved + out
+    em.rules['std::for_each-as-loop(lambda inlined)'] += 1
+    return '((void)0)'
+
 def install(em):
     em.lambda_n = {}
     em.hooks['lib_call'].append(h_accumulate)
     em.hooks['lib_call'].append(h_find_if)
+    em.hooks['lib_call'].append(h_for_each)
